@@ -927,6 +927,57 @@ def gen_tables(repo):
     L.append(f"def treeImplicitTypeGuard : Bool := {'true' if 'par_implicit_type in IMP_TYPE_LOOKUP' in tt_src else 'false'}")
     L.append("/-- `to_tree`: the sub-tree root is compared through the string forms of its *parts* -/")
     L.append(f"def treeFromPathViaParts : Bool := {'true' if 'tuple((str(i) for i in DataPath(*from_path).parts))' in tt_src else 'false'}")
+    # `DataPath.__init__`: what a plain key / index is coerced to (the isinstance chain over the parts)
+    dp_cls = find_class(dtree, "DataPath")
+    dp_init = find_method(dp_cls, "__init__") if dp_cls is not None else None
+    if dp_init is None:
+        raise ExtractError("DataPath.__init__ not found")
+    loops = [n for n in dp_init.body if isinstance(n, ast.For)]
+    chain = None
+    for lp in loops:
+        for st in lp.body:
+            if isinstance(st, ast.If) and "ContainerValue" in ast.unparse(st.test) and st.orelse and isinstance(st.orelse[0], ast.If):
+                chain = st.orelse[0]
+    if chain is None:
+        raise ExtractError("DataPath.__init__: the coercion chain over the parts was not recognised")
+    coercions = []
+    else_exc = None
+    node = chain
+    while isinstance(node, ast.If):
+        t = node.test
+        ok = (isinstance(t, ast.Call) and isinstance(t.func, ast.Name) and t.func.id == "isinstance" and len(t.args) == 2
+              and isinstance(t.args[0], ast.Name) and len(node.body) == 1 and isinstance(node.body[0], ast.Assign)
+              and isinstance(node.body[0].value, ast.Call) and isinstance(node.body[0].value.func, ast.Name))
+        if not ok:
+            raise ExtractError("DataPath.__init__: unsupported coercion branch")
+        var = t.args[0].id
+        types = t.args[1].elts if isinstance(t.args[1], ast.Tuple) else [t.args[1]]
+        call = node.body[0].value
+        ctor = call.func.id
+        shape = ast.unparse(call)
+        if ctor == "MapValue" and shape == f"MapValue({var})":
+            form = "MapValue"
+        elif ctor == "MapOrListValue" and shape == f"MapOrListValue(key={var}, index={var})":
+            form = "MapOrListValue"
+        elif ctor == "ListValue" and shape in (f"ListValue({var})", f"ListValue(index={var})"):
+            form = "ListValue"
+        else:
+            raise ExtractError(f"DataPath.__init__: unsupported coercion {shape}")
+        coercions.append("(" + lean_list(type_expr(x, "DataPath.__init__") for x in types) + ", " + lstr(form) + ")")
+        if len(node.orelse) == 1 and isinstance(node.orelse[0], ast.If):
+            node = node.orelse[0]
+        else:
+            for st in node.orelse:
+                if isinstance(st, ast.Raise):
+                    r = st.exc
+                    else_exc = r.func.id if isinstance(r, ast.Call) else getattr(r, "id", None)
+            node = None
+    exc = {"TypeError": ".typeError", "ValueError": ".valueError"}.get(else_exc)
+    if exc is None:
+        raise ExtractError("DataPath.__init__: the coercion chain does not end in raise TypeError / ValueError")
+    L.append("/-- `DataPath.__init__`: a plain part is coerced by the first entry one of whose types it is an instance of -/")
+    L.append("def primCoercions : List (List PyType × String) := " + lean_list(coercions))
+    L.append(f"def primCoercionElse : Exc := {exc}")
     # `Condition._filter`: with `data_has_paths` only the *values* are (value, path) pairs to unpack
     cond_cls = find_class(ctree, "Condition")
     flt_src = ast.unparse(find_method(cond_cls, "_filter"))
